@@ -110,21 +110,19 @@ func (p *FloatingIPPlugin) resyncAllocatedIPs(meta *resyncMeta) {
 				return
 			}
 			glog.Infof("%s is not running, %s", obj.keyObj.KeyInDB, reason)
-			if p.cloudProvider != nil && obj.fip.NodeName != "" {
+			if p.cloudProvider != nil {
 				// For tapp and sts pod, nodeName will be updated to empty after unassigning
-				glog.Infof("UnAssignIP nodeName %s, ip %s, key %s during resync", obj.fip.NodeName,
-					obj.fip.IP.String(), key)
-				if err := p.cloudProviderUnAssignIP(&rpc.UnAssignIPRequest{
-					NodeName:  obj.fip.NodeName,
-					IPAddress: obj.fip.IP.String(),
-				}); err != nil {
-					glog.Warningf("failed to unassign ip %s to %s: %v", obj.fip.IP.String(), key, err)
+				unassigned, err := p.unassignIPsOfKey(key, "during resync")
+				if err != nil {
+					glog.Warning(err)
 					// return to retry unassign ip in the next resync loop
 					return
 				}
-				// for tapp and sts pod, we need to clean its node attr and uid
-				if err := p.reserveIP(key, key, "unassign ip during resync"); err != nil {
-					glog.Error(err)
+				if unassigned {
+					// for tapp and sts pod, we need to clean its node attr and uid
+					if err := p.reserveIP(key, key, "unassign ip during resync"); err != nil {
+						glog.Error(err)
+					}
 				}
 			}
 			releasePolicy := constant.ReleasePolicy(obj.fip.Policy)
@@ -139,6 +137,32 @@ func (p *FloatingIPPlugin) resyncAllocatedIPs(meta *resyncMeta) {
 			}
 		}()
 	}
+}
+
+// unassignIPsOfKey asks the cloud provider to unassign every ip of key which is still recorded on a node. The callers
+// clean node attr and uid of all ips of the key or free them afterwards, so none of them may be left out, e.g. the
+// other ips of a pod with several ips. It returns true if any ip was unassigned.
+func (p *FloatingIPPlugin) unassignIPsOfKey(key, when string) (bool, error) {
+	ipInfos, err := p.ipam.ByKeyAndIPRanges(key, nil)
+	if err != nil {
+		return false, fmt.Errorf("query floating ip by key %s: %v", key, err)
+	}
+	unassigned := false
+	for _, ipInfo := range ipInfos {
+		if ipInfo.NodeName == "" {
+			continue
+		}
+		ipStr := ipInfo.IPInfo.IP.IP.String()
+		glog.Infof("UnAssignIP nodeName %s, ip %s, key %s %s", ipInfo.NodeName, ipStr, key, when)
+		if err := p.cloudProviderUnAssignIP(&rpc.UnAssignIPRequest{
+			NodeName:  ipInfo.NodeName,
+			IPAddress: ipStr,
+		}); err != nil {
+			return unassigned, fmt.Errorf("UnAssignIP nodeName %s, ip %s, key %s: %v", ipInfo.NodeName, ipStr, key, err)
+		}
+		unassigned = true
+	}
+	return unassigned, nil
 }
 
 func (p *FloatingIPPlugin) podRunning(podName, namespace, podUid string) (bool, string) {
